@@ -326,8 +326,18 @@ def gen_program(rng, ncomp=None):
 def corner_programs():
     """fixed csvpaths that are in every run, whatever the generator draws: a bare variable holding 0 / 0.0 / "" (it exists),
     the VALUE of counter(), and '@v = count.d(cond)' on lines that do not match"""
-    P = lambda comps, scan="1*", AND=True: {"comps": comps, "AND": AND, "cw": False, "scan": scan, "uses_lt": False, "textonly": False}
+    P = lambda comps, scan="1*", AND=True, rows=None: {"comps": comps, "AND": AND, "cw": False, "scan": scan, "uses_lt": False, "textonly": False, "rows": rows}
+    # numeric cells left empty: add(), int(), sum() and counter() read an empty cell as 0 (subtract()/multiply() raise, comparisons and
+    # equality fall back to text: not in the CORE model, so empty numeric cells appear only here)
+    E = [HDR[:], ["r1", "", "5", "a", "b"], ["r2", "3", "", "a", "b"], ["r3", "", "", "q", "b"], ["r4", "2", "2", "a", "q"], ["r5", "10", "", "a", "b"]]
+    Z0 = [HDR[:], ["r1", "0", "0", "a", "b"], ["r2", "3", "0", "a", "b"], ["r3", "0", "7", "q", "b"], ["r4", "2", "2", "a", "q"]]
     return [
+        # eq() / equals() is the function form of '==': a cell holding 0 equals the number 0
+        P([("eq(#n, 0)", "(CB (BEq (NHdr 1) (NLit 0)))")], rows=Z0),
+        P([("equals(add(#n, 0), #m)", "(CB (BEq (NAdd (NHdr 1) (NLit 0)) (NHdr 2)))"), ("#n == 0", "(CB (BEqEq (NHdr 1) (NLit 0)))")], rows=Z0, AND=False),
+        P([("above(add(#n, #m), 4)", "(CB (BCmp Gt (NAdd (NHdr 1) (NHdr 2)) (NLit 4)))")], rows=E),
+        P([("@v1 = add(#n, 1)", "(CAct (AssignN 1 (NAdd (NHdr 1) (NLit 1))))"), ("gt(int(#m), 1)", "(CB (BCmp Gt (NInt (NHdr 2)) (NLit 1)))")], rows=E),
+        P([("sum.v2(#n)", "(CAgg (Sum 2 (NHdr 1)))"), ("counter.v3(#m)", "(CAgg (CounterE 3 (NHdr 2)))")], rows=E),
         P([("@v1 = 0", "(CAct (AssignN 1 (NLit 0)))"), ("@v1", "(CB (BVarSet 1))")]),
         P([("@v3 = subtract(#n, #n)", "(CAct (AssignN 3 (NSub (NHdr 1) (NHdr 1))))"), ("@v3", "(CB (BVarSet 3))")]),
         P([("@v1 = 0", "(CAct (AssignN 1 (NLit 0)))"), ("@v1", "(CB (BVarSet 1))"), ("no()", "(CB BNo)")], AND=False),
